@@ -606,6 +606,7 @@ def _run_push(g, ctx, x64):
   geom = wl.geom_table(model)[0]
   nl = len(g['lanes'])
   q0 = np.zeros((nl, 7))
+  plocal = []
   for b, lane in enumerate(g['lanes']):
     rng = np.random.default_rng(lane['seed'])
     quat = wl.rand_quat(rng)
@@ -615,6 +616,9 @@ def _run_push(g, ctx, x64):
     q[2] = -cl - lane['depth']
     q0[b] = q
     ctx.fault('initial_penetration')
+    pw = wl.lowest_point(geom[1], geom[2], geom[3], geom[4], q[0:3], q[3:7])
+    assert abs(pw[2] + lane['depth']) < 1e-9, (pw, lane['depth'])
+    plocal.append(wl.to_local(q[0:3], q[3:7], pw))
   ctx.log.inp('push', q0)
   eps = 1e-9 if x64 else 2e-6
   for name, P in wl.pipelines().items():
@@ -645,6 +649,22 @@ def _run_push(g, ctx, x64):
           'lane': b, 'dz_com': float(dz[b]), 'free_fall_dz': gz * dt * dt,
           'depth': g['lanes'][b]['depth'], 'shape': geom[1], 'dt': dt,
           'precision': 'x64' if x64 else 'f32'})
+      return
+    # the material point that was deepest in the ground must not end lower
+    # than free motion would take it (0.1 mm slack)
+    pl = np.stack(plocal)
+    p0 = out[0] + wl.quat_rot_np(out[1], pl)
+    p1 = out[2] + wl.quat_rot_np(out[3], pl)
+    dzp = p1[:, 2] - p0[:, 2]
+    ctx.probe_max('max:neg_min_point_push_mm/' + name, float(-1000 * dzp.min()))
+    badp = np.argwhere(~(dzp >= gz * dt * dt - 1e-4))
+    if len(badp):
+      b = int(badp[0][0])
+      ctx.violate('push.point', 1, sig, {
+          'lane': b, 'dz_deepest_point': float(dzp[b]), 'dz_com': float(dz[b]),
+          'free_fall_dz': gz * dt * dt, 'depth': g['lanes'][b]['depth'],
+          'shape': geom[1], 'size': geom[2], 'quat': q0[b, 3:7].tolist(),
+          'dt': dt, 'precision': 'x64' if x64 else 'f32'})
       return
 
 
